@@ -127,6 +127,10 @@ def payloads(draw, kinds=("coded", "random", "special")):
     if draw(st.integers(0, 2 ** 16)) % 4 == 0:
         # about a third of the boxes hold exactly 0.0 everywhere, in all components or in one
         out["zero_boxes"] = draw(st.integers(1, 2 ** 16))
+    if kind == "special" and draw(st.integers(0, 2 ** 16)) % 3 == 0:
+        # finite values whose text form is as long as a float64 gets: negative, 17 significant digits, three-digit
+        # exponent (24 characters in a level-header min/max row), next to the largest and smallest negative doubles
+        out["mag3"] = True
     return out
 
 
@@ -445,6 +449,8 @@ class Plot:
             lab.append("many-fields(>12)")
         if self.payload.get("zero_boxes"):
             lab.append("all-zero-boxes")
+        if self.payload.get("mag3"):
+            lab.append("24-character-extrema")
         if self.spec.get("coord_sys"):
             lab.append("coord-sys:RZ")
         if self.spec.get("level_prefix"):
@@ -531,6 +537,10 @@ SPECIALS = np.array([0x7ff8000000000000, 0x7ff4000000000001, 0xfff8000000000123,
                      0x000fffffffffffff], dtype="<u8").view("<f8")
 
 
+LONG_TEXT = np.array([-3.4999999999999998e-120, -7.2500000000000004e+150, 3.4999999999999998e-120, -1.7976931348623157e+308,
+                      -2.2250738585072014e-308, -4.9406564584124654e-324, -1.2345678901234567e-101, 9.8765432109876543e+199])
+
+
 def _payload_special(plot, l, lo, hi):
     arr = _payload_random(plot, l, lo, hi)
     r = _box_rng(plot, l + 1000, lo)
@@ -538,6 +548,11 @@ def _payload_special(plot, l, lo, hi):
     k = max(1, flat.size // 9)
     pos = r.integers(0, flat.size, size=k)
     flat[pos] = SPECIALS[r.integers(0, len(SPECIALS), size=k)]
+    if plot.payload.get("mag3"):
+        r2 = _box_rng(plot, l + 2000, lo)
+        k2 = max(1, flat.size // 6)
+        pos2 = r2.integers(0, flat.size, size=k2)
+        flat[pos2] = LONG_TEXT[r2.integers(0, len(LONG_TEXT), size=k2)]
     return arr
 
 
